@@ -145,6 +145,40 @@ func realParse(src []byte) (parseObs, *decoder.Tree) {
 	}
 }
 
+// parseFileObs: the same bytes through ParseFile (written to a scratch file that
+// is removed at once).
+func parseFileObs(src []byte) (parseObs, error) {
+	f, err := os.CreateTemp("", "vharness-*.dec")
+	if err != nil {
+		return parseObs{}, err
+	}
+	name := f.Name()
+	defer os.Remove(name)
+	if _, err = f.Write(src); err != nil {
+		f.Close()
+		return parseObs{}, err
+	}
+	f.Close()
+	var o parseObs
+	func() {
+		defer func() {
+			if p := recover(); p != nil {
+				o = parseObs{Class: "panic", Err: fmt.Sprint(p)}
+			}
+		}()
+		t, perr := decoder.ParseFile(name)
+		o = parseObs{Class: classifyParseErr(perr)}
+		if perr != nil {
+			o.Err = perr.Error()
+		}
+		if t != nil {
+			d := decoder.VerifDumpTree(t)
+			o.Ser, o.Nodes = serNodes(d), len(d)
+		}
+	}()
+	return o, nil
+}
+
 type parseCase struct {
 	Tag string   `json:"tag"`
 	Src string   `json:"src"`
@@ -401,6 +435,16 @@ func init() {
 					sum.OracleFails = append(sum.OracleFails, OracleFail{What: "a program that is unbalanced or calls an unregistered function was accepted (" + tag + ")", Input: c, Expect: "non-nil error", Got: "nil error"})
 				}
 			}
+			// ParseFile is Parse of the file's bytes: same verdict, same tree
+			if tag == "corpus" || len(cases)%9 == 0 {
+				if fo, ferr := parseFileObs(src); ferr == nil {
+					sum.Distribution["ParseFile compared with Parse"]++
+					if (fo.Class != c.Obs.Class || fo.Ser != c.Obs.Ser) && c.Obs.Class != "modified-input" && len(sum.OracleFails) < 5 {
+						sum.OracleFails = append(sum.OracleFails, OracleFail{What: "ParseFile of a file does not give what Parse gives for the file's bytes (" + tag + ")", Input: c,
+							Expect: c.Obs.Class + " " + c.Obs.Err, Got: fo.Class + " " + fo.Err})
+					}
+				}
+			}
 			cases = append(cases, c)
 			if len(sum.Samples) < 3 && tag != "random bytes" && len(src) < 200 {
 				sum.Samples = append(sum.Samples, c)
@@ -411,7 +455,9 @@ func init() {
 			"if x == 1 {\n", "for k, v := range jso.a {\nprobe(k)\n", "switch jso.s {\ncase 1:\n", "nosuchfn(1)\n", "obj.Id = nosuchgetter(jso.a)\n", "obj.Id = jso.a|nosuchmod()\n",
 			"if == 1 {\nprobe(1)\n}\n", "if  <= jso.n {\n}\n", "if >5{\n}\n", "obj.Id = == 1 ? jso.a : jso.b\n", "if jso.n == {\n}\n", "if jso.n  1 {\n}\n",
 			"for i := ; i < 3; i++ {\n}\n", "for i := 0; i < ; i++ {\n}\n", "for := range jso.a {\n}\n", "switch {\ncase == 1:\nprobe(1)\n}\n", "switch {\ncase jso.n >:\n}\n",
-			"obj.Id = jso.n == 1 ? : jso.b\n", "obj.Id = jso.n == 1 ? jso.a :\n", "if x, ok := (jso.a); ok {\n}\n", "if , ok := okh(jso.a); ok {\n}\n"} {
+			"obj.Id = jso.n == 1 ? : jso.b\n", "obj.Id = jso.n == 1 ? jso.a :\n", "if x, ok := (jso.a); ok {\n}\n", "if , ok := okh(jso.a); ok {\n}\n",
+			// names that are registered in another spelling only
+			"obj.Id = jso.s|Default(\"x\")\n", "obj.Name = jso.s|UpperFirst\n", "ctx.v = jso.b|IfThenElse(1, 2)\n", "obj.Id = Crc32(jso.s)\n", "Probe(jso.a)\n", "obj.Id = jso.s|Upper()|suffix(\"A\")\n"} {
 			must := strings.Contains(s, "else") || strings.HasPrefix(s, "}") || strings.HasSuffix(s, "{\n") || strings.Contains(s, "nosuchfn") || strings.Contains(s, "nosuchgetter") ||
 				(strings.Contains(s, "range") && !strings.HasSuffix(s, "}\n")) || strings.HasSuffix(s, "case 1:\n")
 			add("corpus", []byte(s), must)
